@@ -16,6 +16,8 @@ def run(unit, seed, outdir):
         return unit, seed, ['<no json>'], 0
     bad = []
     worst = 0
+    if 'smt' not in d.get('times-ms', {}):
+        return unit, seed, ['<not verified: %s>' % (p.stderr[-200:].replace('\n', ' '))], 0
     for m in d['times-ms']['smt']['smt-run-module-times']:
         for f in m.get('function-breakdown', []):
             worst = max(worst, f['time'])
